@@ -238,6 +238,8 @@ class UnusedTranslator:
                 for group in repeated:
                     if any(atom.symbol.arguments[i] != atom.symbol.arguments[group[0]] for i in group):
                         return False
+                    if collect_ast(atom.symbol.arguments[group[0]], "Interval"):
+                        return False  # every occurrence of an interval takes its own value
         return True
 
     def remove_single_copies(self, prg: list[AST]) -> list[AST]:
